@@ -322,7 +322,7 @@ def main(argv):
                                                                                                          got.get(("self", 0)) or 0, got.get(("self", 1)) or 0),
                                  dict(kind=kind, axi=axi, drive1=pair_runs[0].files() if pair_runs else None, drive2=pair_runs[1].files() if len(pair_runs) > 1 else None))
         # ---- a time-harmonic solve at vanishing frequency equals the static one
-        vf = [(False, None), (True, None), (False, "lam"), (True, "lam"), (False, "lam0"), (True, "lam0")]
+        vf = [(False, None), (True, None), (False, "lam"), (True, "lam"), (False, "lam0"), (True, "lam0"), (False, "solidcirc"), (True, "solidcirc")]
         if ck.tier == "thorough":
             vf = vf * 3
         for t, (axi, lam) in enumerate(vf):
@@ -332,6 +332,11 @@ def main(argv):
             if lam and not any(e1["J"].values()) and not any(e1["I"].values()) and not any(e1["A"]) and not e1["pt"]:
                 e1["J"] = {i: 1.0 for i in e1["J"]}
             ps = apply(p0, "m", e1)
+            if lam == "solidcirc":
+                lam = None
+                solidcirc = True
+            else:
+                solidcirc = False
             if lam:
                 # laminations in the plane (type 0): iron of fill t in parallel with air, mu_eff = t mu + (1 - t), in the static solvers, the
                 # harmonic solvers and the post-processor alike; "lam0" = a fill factor on a material without a lamination thickness
@@ -346,6 +351,32 @@ def main(argv):
             for lab_ in ps.labels:
                 if lab_["circ"] >= 0:
                     ps.blockprops[lab_["block"]]["Sigma"] = 0.0
+            if solidcirc:
+                # ... except in this variant: a SOLID conductor (one turn, conductivity 58 MS/m) in a PARALLEL circuit that carries a current,
+                # made of a material with its own source current density - the circuit current is the total the region carries, in the
+                # static and in the harmonic formulation alike; solved at 1e-6 Hz (the eddy reaction is of the order 1e-6), compared to 1e-4
+                cl = [l_ for l_ in ps.labels if l_["circ"] >= 0 and l_["block"] >= 0]
+                if not cl:
+                    # no region of this drawing is in a circuit: put the last material region into one
+                    cand = [l_ for l_ in ps.labels if l_["block"] >= 0]
+                    if not cand:
+                        continue
+                    if not ps.circprops:
+                        ps.circprops = [dict(name="cvf", I_re=1.0, type=0)]
+                    cand[-1]["circ"] = 0
+                    cl = [cand[-1]]
+                for l_ in cl:
+                    l_["turns"] = 1
+                    ps.circprops[l_["circ"]]["type"] = 0
+                    if not ps.circprops[l_["circ"]].get("I_re"):
+                        ps.circprops[l_["circ"]]["I_re"] = 1.0
+                    ps.blockprops[l_["block"]].update(Sigma=58.0, J_re=2.0)
+                    ps.blockprops[l_["block"]].pop("LamType", None); ps.blockprops[l_["block"]].pop("LamFill", None)
+                # non-magnetic materials and centimetres: the frequency below is then 1e-7 .. 1e-6 Hz, inside the range in which the
+                # complex solver is known to converge with a voltage unknown (far lower frequencies degenerate, see above)
+                for m in ps.blockprops:
+                    m["Mu_x"] = m["Mu_y"] = 1.0
+                ps.units = "centimeters"
             ph = copy.deepcopy(ps)
             # "vanishing": far below the magnetic diffusion frequency of the drawing, omega*sigma*mu*L^2 = 1e-11
             import math
@@ -355,6 +386,9 @@ def main(argv):
             # (the potential per unit current density can exceed mu*L^2 by orders of magnitude when the return path is far away:
             # a margin of 1e4 on the estimate keeps the induced reaction below 1e-7 of the static field)
             ph.freq = min(1e-4, 1e-11 / (2 * math.pi * max(smax, 1e-30) * 4e-7 * math.pi * mumax * L * L))
+            if solidcirc:
+                L = max(max(abs(n["x"]), abs(n["y"])) for n in ps.nodes) * femmio.UNIT_M[ps.units]
+                ph.freq = 1e-6 / (2 * math.pi * 58e6 * 4e-7 * math.pi * L * L)       # omega sigma mu0 L^2 = 1e-6
             rs = Run(build, work, "vf%d_s" % t, ps)
             rh = Run(build, work, "vf%d_h" % t, ph)
             if rs.mesh() != 0:
@@ -371,8 +405,12 @@ def main(argv):
             ck.case(("vanishing-frequency", axi, lam, t), nontrivial=True)
             sc = max(max(abs(v) for v in xs), 1e-300)
             err = max(abs(h - s) for h, s in zip(xh, xs)) / sc
-            if not (err <= 1e-5):
-                if lam == "lam0":
+            if solidcirc:
+                stats["vanishing_frequency_solid_circuit"] = stats.get("vanishing_frequency_solid_circuit", 0) + 1
+            if not (err <= (1e-4 if solidcirc else 1e-5)):
+                if solidcirc:
+                    key = "vanishing-frequency:solid-circuit:%s" % ("axi" if axi else "planar")
+                elif lam == "lam0":
                     key = "vanishing-frequency:lamfill-zero-thickness"
                 elif lam:
                     key = "vanishing-frequency:laminated:%s" % ("axi" if axi else "planar")
